@@ -237,9 +237,16 @@ def _is_non_deterministic_op(node: ir.Node) -> bool:
             "RandomUniformLike",
             "RandomNormalLike",
             "Multinomial",
+            "Bernoulli",
         }
     )
-    return node.op_type in non_deterministic_ops and _is_onnx_domain(node.domain)
+    if not _is_onnx_domain(node.domain):
+        return False
+    if node.op_type == "Dropout":
+        # Dropout draws a random mask unless it provably runs in inference mode
+        # (training_mode, the third input, is absent)
+        return len(node.inputs) > 2 and node.inputs[2] is not None
+    return node.op_type in non_deterministic_ops
 
 
 def _is_onnx_domain(d: str) -> bool:
